@@ -363,7 +363,27 @@ def law_reparse(args):
     return "ok"
 
 
+def law_large(args):
+    """a set of N flat clauses: filter() equals what contains() accepts, in order, under every pre-release argument; nothing but the documented
+    exception may come out (size is not nesting)"""
+    n, seed = int(args[0]), int(args[1])
+    import random
+    r = random.Random(seed)
+    cl = [r.choice([">=0.%d", "!=9.%d", "<99.%d", ">0.0.%d", "~=0.%d", "!=1.%d.*"]) % i for i in range(n)]
+    r.shuffle(cl)
+    ss = SpecifierSet(",".join(cl))
+    items = ["1.0", "0.0", "2.0a1", "9.7", "1.3.1", "50", "100", "1.0.dev1"]
+    for pre in (None, True, False):
+        want = [x for x in items if ss.contains(x, prereleases=pre)] if pre is not None else None
+        got = list(ss.filter(items, prereleases=pre)) if pre is not None else list(ss.filter(items))
+        if want is not None and got != want: return "filter of a %d-clause set differs from contains (prereleases=%r): %r vs %r" % (n, pre, got, want)
+    if len(ss) != len(set(cl)) or len(str(ss).split(",")) != len(ss): return "a %d-clause set loses clauses" % n
+    if not (SpecifierSet(str(ss)) == ss) or hash(SpecifierSet(str(ss))) != hash(ss): return "str of a %d-clause set does not parse back to an equal set" % n
+    return "ok"
+
+
 def observe(cmd, args):
+    if cmd == "law.s.large": return law_large(args)
     if cmd == "s.run": return run_prog(args)
     if cmd == "s.world": return run_world(args)
     if cmd == "law.s.c05": return law_c05(args)
